@@ -58,6 +58,7 @@ type nodeH struct {
 	mu       sync.Mutex
 	pending  *pendingAdd
 	pendingQ chan []xp.Answer
+	handed   []xp.Snap // snapshots received on the node's snapshots channel (what goes to the gossip sender)
 }
 
 type pendingAdd struct {
@@ -526,8 +527,14 @@ func openNode(o *xp.NodeOpts) (*nodeH, error) {
 	opts.RaftCommitTimeout = 5 * time.Millisecond
 	h := &nodeH{fs: fs, ch: make(chan *protocol.Snapshot, 1<<16)}
 	go func() {
-		for range h.ch {
+		for s := range h.ch {
 			atomic.AddInt64(&h.emitted, 1)
+			h.mu.Lock()
+			if len(h.handed) < 100000 {
+				// copy at the time of hand-over: what the sender would sign
+				h.handed = append(h.handed, xp.Snap{Version: s.Version, Event: append([]byte{}, s.EventDigest...), History: append([]byte{}, s.HistoryDigest...), Hyper: append([]byte{}, s.HyperDigest...)})
+			}
+			h.mu.Unlock()
 		}
 	}()
 	node, err := consensus.NewRaftNode(opts, fs, h.ch, nil)
@@ -657,6 +664,11 @@ func (w *world) nodeOp(r *xp.Req, resp *xp.Resp) {
 			return
 		}
 		resp.Answers = <-ch
+	case "node-handed":
+		time.Sleep(30 * time.Millisecond)
+		h.mu.Lock()
+		resp.Snaps = append([]xp.Snap{}, h.handed...)
+		h.mu.Unlock()
 	case "node-stress":
 		resp.Emitted, resp.Bad = stress(n, r)
 	case "node-state":
